@@ -1,7 +1,8 @@
-(* C05 - poll is total (one-step parts).  The full statement (no Panic / OutOfFuel under the
-   representation invariant, for all inputs) is planned on top of the same model and not yet proved;
-   until then the evidence for C05 is the correspondence run: model and implementation agree on
-   PANIC / no PANIC on every generated history, and the implementation shows no PANIC. *)
+(* C05 - poll() is total: no panic, no hang, whatever arrives on the bus.
+   First the one-step parts, then (below) the full statement: no Panic / OutOfFuel from every state
+   satisfying the representation invariant `Rep`, for all inputs and all histories, for the FDL station
+   with abstract total applications, and (further below, Proofs/C05Apps.v) with the models of the real
+   applications - DP master with any number of peripherals, live list, DP scanner - attached. *)
 From PB Require Import Common Fdl FdlProofs.
 
 (* The GAP cursor computation cannot panic for parameters the builder can produce. *)
